@@ -359,4 +359,15 @@ def r9_every_type_record_is_translated(chk):
     chk.floor('C16.R9', 2, 'genBits, genSimpleSyntax')
 
 
-RULES = [r1_lexer_aliases, r2_type_tables, r3_access, r4_import_table, r5_apply_table, r6_trap, r7_translate_before_use, r8_no_mutation_while_iterating, r9_every_type_record_is_translated]
+
+def r10_adapter_keeps_smiv1_values(chk):
+    """what an SMIv1 module says (ACCESS write-only, ...) reaches the pysnmp output as the IR records it (shared with
+    C04.R1)"""
+    from rules.C04 import r1_shared_ir
+    common.reuse(chk, r1_shared_ir, ('C04.R1',), 'C16.R10',
+                 'the pysnmp adapter rewrites no member of an IR record (C04.R1): the SMIv1 spelling of a value is '
+                 'translated, if at all, in the IR for both back-ends alike',
+                 keep=lambda o: 'adapter' in o.key, floor=2)
+
+
+RULES = [r1_lexer_aliases, r2_type_tables, r3_access, r4_import_table, r5_apply_table, r6_trap, r7_translate_before_use, r8_no_mutation_while_iterating, r9_every_type_record_is_translated, r10_adapter_keeps_smiv1_values]
